@@ -32,6 +32,14 @@ func sweepCases(tier string, o sweepOpts) []Case {
 		cs = append(cs, Case{ID: "no-leaf-trees", Run: func() CaseResult { return noLeafCase(o) }})
 	}
 	if o.c01 || o.c02 {
+		cs = append(cs, Case{ID: "tokenizer/all-runes", Run: func() CaseResult { return allRunesCase() }})
+		for li, lay := range lays {
+			if tier == "quick" && li != 0 && lay.name != "chunks50-zstd-merged" {
+				continue
+			}
+			lay := lay
+			cs = append(cs, Case{ID: "sweep-unicode/" + lay.name, Run: func() CaseResult { return sweepCaseRows(toks[0], lay, o, unicodeRows()) }})
+		}
 		cs = append(cs, Case{ID: "trees/truth-table", Run: func() CaseResult { return treeCase(o) }})
 		cs = append(cs, Case{ID: "batch-boundaries", Run: func() CaseResult { return batchBoundaryCase(o) }})
 		cs = append(cs, Case{ID: "merge-shapes/pairs", Run: func() CaseResult { return mergeShapeCase(o, false) }})
